@@ -10,6 +10,18 @@ BUILTIN_SEQ = (list, tuple, set, frozenset)
 ANY = ('<any-name>',)
 
 
+def default_limits():
+    """The documented default limits, read from the public constants (a changed default is not a defect)."""
+    lim = {'max_vars': 1000, 'max_str': 1024, 'max_coll': 10, 'max_depth': 5}
+    try:
+        from deep.processor.variable_set_processor import VariableProcessorConfig as C
+        lim = {'max_vars': int(C.DEFAULT_MAX_VARIABLES), 'max_str': int(C.DEFAULT_MAX_STRING_LENGTH),
+               'max_coll': int(C.DEFAULT_MAX_COLLECTION_SIZE), 'max_depth': int(C.DEFAULT_MAX_VAR_DEPTH)}
+    except BaseException:  # noqa
+        pass
+    return lim
+
+
 class FrameRead:
     """One frame of the real stack at the event."""
     __slots__ = ('file', 'func', 'line', 'cls', 'locals')
@@ -224,8 +236,8 @@ def check_table(snap_lookup, roots, max_str, probs, strict_children=None, max_co
             work.append((ch, kids[pick][1], level + 1, '%s.%s' % (path, cname)))
         if strict_children is not None and level <= strict_children and type(obj) is not type:
             want = len(kids)
-            if type(obj) in BUILTIN_SEQ and max_coll is not None:
-                want = min(want, max_coll)
+            if type(obj) in BUILTIN_SEQ:
+                want = min(want, max_coll if max_coll is not None else default_limits()['max_coll'])
             if len(used) < want and not _no_child_kind(obj):
                 probs.add('fidelity:children-missing', '%s: %d of %d children of the %s reported' % (
                     path, len(used), want, type(obj).__name__))
